@@ -86,6 +86,12 @@ def gen(rng, tier, quarantine=()):
         keep = [s for s in sels if rng.random() < 0.7]
         sels = keep or sels
     ops = [{"op": "mk", "id": "p0", "sels": sels, "inv": "C06.meta"}, {"op": "enter", "id": "p0"}]
+    if "no-wrapper-form" not in quarantine and rng.random() < 0.3:
+        # the wrapper form f(!#enter, #error, !!#exit), as a second probe
+        wsel = {"levels": [{"fn": qual, "caps": [{"var": "#error", "as": "#error"}], "sibs": []}],
+                "focus": {"var": "#enter", "as": "#enter"},
+                "extra_focus": [{"var": "#exit", "as": "#exit"}], "wrap": True}
+        ops += [{"op": "mk", "id": "w0", "sels": [wsel], "inv": "C06.wrapper"}, {"op": "enter", "id": "w0"}]
     tl = 24 if tier == "quick" else 48
     for c in range(rng.randint(1, 3)):
         if (short in GEN_FNS or is_gen) and rng.random() < 0.8:
@@ -109,6 +115,8 @@ def gen(rng, tier, quarantine=()):
             op["tape"] = gen_tape(rng, rng.randint(0, tl), odd=0.3)
             op["faults"] = gen_faults(rng, 30, rng.choice([0, 0, 1, 1, 2]), pbase=0.3)
             ops.append(op)
+    if any(o.get("id") == "w0" for o in ops):
+        ops.append({"op": "exit", "id": "w0"})
     ops.append({"op": "exit", "id": "p0"})
     sc = {"prog": "forms", "ops": ops}
     if generated:
